@@ -10,16 +10,12 @@ import ast
 from ..core import Report, Finding, AnalysisError
 from ..facts import Facts
 from ..astutil import unparse, dotted, walk_no_nested
-from ..pathwalk import show, is_const, C
+from ..pathwalk import show, is_const, C, PathState
 from ..layout import account
 from .. import immsites as IS, encprops
-from ..encsum import all_summaries, derived_operand
-from ..comprel import CompRel
-from ..wiring import chain_outcomes
 from ..passorder import Pipeline
-from ..construles import method_paths, item_loop_paths, Resolver, XWalker
+from ..construles import method_paths, item_loop_paths, Resolver, encoder_param_kinds, XWalker
 from ..layoutrules import returned_list
-from .c12 import check_representation
 
 LEVEL = 'other'
 
@@ -350,31 +346,37 @@ def check_aliases(rep, facts, pipe, und):
             regs_node = n
     if regs is None:
         raise AnalysisError('resolve_register_aliases: no literal set of register field names (looked through locals and module-level constants)')
-    # which fields hold registers is derived from the encoder summaries (operand kind of the parameter each attribute feeds)
+    # which fields hold registers: attribute k of a class -> k-th value of args() -> k-th positional parameter of the encoder
+    # bound to each of the class's mnemonics -> does that parameter reach lookup_register (value-kind dataflow, construles)
     kinds = {}
     try:
         cls_tables, _ = encprops.class_tables(facts)
         tables = facts.instruction_tables()
-        sums = all_summaries(facts)
         for cls, tnames in cls_tables.items():
             if cls == 'PseudoInstruction' or cls not in facts.classes:
                 continue
             attrs = facts.args_attrs(cls) or []
             for t in tnames:
                 for mn in tables.get(t, {}):
-                    s = sums[mn]
-                    for attr, p in zip(attrs, s.params):
-                        info = derived_operand(s, p)
-                        kinds.setdefault(attr, set()).add(info['kind'] if info is not None else 'other')
+                    binding = facts.binding(mn)
+                    enc = binding.func
+                    efn = facts.funcs.get(enc)
+                    if efn is None:
+                        raise AnalysisError('mnemonic {!r} is bound to {}, which is not a module-level function'.format(mn, enc))
+                    pk = encoder_param_kinds(facts, enc)
+                    positional = [a.arg for a in efn.args.posonlyargs + efn.args.args if a.arg not in binding.kwargs]   # still open
+                    for attr, p_ in zip(attrs, positional):
+                        kinds.setdefault(attr, set()).add(pk[p_])
+                    rep.count('mnemonic bindings traced to register parameters')
             for attr, _ in facts.full_attr_order(cls):
                 if attr not in attrs:
                     kinds.setdefault(attr, set()).add('other')       # line, name, flags: not operands of the encoder
     except AnalysisError as e:
-        und.append('register-kinded fields could not be derived from the encoder summaries: {}'.format(e))
+        und.append('register-kinded fields could not be derived: {}'.format(e))
         kinds = None
     needed = {a for a, k in kinds.items() if 'reg' in k} if kinds is not None else None
     if needed is not None and not needed:
-        und.append('no register-kinded field could be derived from the encoder summaries (parse_item / class tables not understood)')
+        und.append('no register-kinded field could be derived (parse_item / class tables not understood)')
     elif needed is not None:
         rep.check(needed <= regs, 'R11.3.fields', 'alias substitution covers every register-kinded field {}'.format(sorted(needed)),
                   lambda: Finding('R11.3.fields', 'resolve_register_aliases', regs_node,
@@ -452,35 +454,134 @@ def check_aliases(rep, facts, pipe, und):
         encprops.check_rebuild_invariant(rep, facts, 'R11.3.rebuild-invariant')
     except AnalysisError as e:
         und.append(str(e))
+    return regs
+
+
+def check_register_text(rep, facts, regs, und):
+    """R11.4: after resolve_register_aliases a register field may hold an int (the value of a constant) and is interpreted through
+    the register table; wherever such a field is re-wrapped as an expression (`Arithmetic(...)`: the shift amount of a compressed
+    shift) it must be normalised through lookup_register and turned into text, because Arithmetic.eval works on str only and
+    evaluates in an environment without the register table.  Decided on every Arithmetic(...) construction of the module whose
+    argument mentions a register field (attribute access, getattr, or a field name handed to a lookup helper)."""
+    defs = {}
+    for n in ast.walk(facts.tree):
+        if isinstance(n, ast.FunctionDef):
+            defs.setdefault(n.name, []).append(n)
+
+    def looks_up(name, depth=0):
+        """does a function of that name hand (something derived from) its parameters to lookup_register?"""
+        if name == 'lookup_register':
+            return True
+        if depth > 2:
+            return False
+        for d in defs.get(name, []):
+            for c in ast.walk(d):
+                if isinstance(c, ast.Call) and isinstance(c.func, ast.Name) and c.func.id != name and looks_up(c.func.id, depth + 1):
+                    return True
+        return False
+
+    def mentions(node):
+        out = []
+        for x in ast.walk(node):
+            if isinstance(x, ast.Attribute) and x.attr in regs and isinstance(x.ctx, ast.Load):
+                out.append(x)
+            elif isinstance(x, ast.Constant) and isinstance(x.value, str) and x.value in regs and isinstance(getattr(x, '_parent', None), ast.Call):
+                out.append(x)
+        return out
+
+    def textual(node):
+        if isinstance(node, ast.Call) and isinstance(node.func, ast.Name) and node.func.id in ('str', 'repr', 'format') and node.args:
+            return True
+        if isinstance(node, ast.Call) and isinstance(node.func, ast.Attribute) and node.func.attr == 'format' and isinstance(node.func.value, ast.Constant):
+            return True
+        if isinstance(node, ast.JoinedStr):
+            return True
+        return isinstance(node, ast.BinOp) and isinstance(node.op, ast.Mod) and isinstance(node.left, ast.Constant) and isinstance(node.left.value, str)
+
+    n = 0
+    for fn in [d for ds in defs.values() for d in ds]:
+        res = None
+        for call in walk_no_nested(fn):
+            if not (isinstance(call, ast.Call) and isinstance(call.func, ast.Name) and call.func.id == 'Arithmetic' and len(call.args) == 1):
+                continue
+            arg = call.args[0]
+            # a local bound once is read through
+            seen = 0
+            while isinstance(arg, ast.Name) and seen < 3:
+                res = res or Resolver(facts, fn)
+                b = res.binds.get(arg.id)
+                if not b or len(b) != 1 or b[0] is None:
+                    break
+                arg = b[0]
+                seen += 1
+            ms = mentions(arg)
+            if not ms:
+                continue
+            n += 1
+            inst = '{}: Arithmetic({})'.format(fn.name, unparse(arg)[:50])
+
+            def normalised(m):
+                cur = m
+                while cur is not arg and cur is not None:
+                    cur = getattr(cur, '_parent', None)
+                    if isinstance(cur, ast.Call) and isinstance(cur.func, ast.Name) and looks_up(cur.func.id):
+                        return True
+                return False
+            if textual(arg) and all(normalised(m) for m in ms):
+                rep.ok('R11.4.imm', inst + ' (normalised through lookup_register, as text)')
+            elif isinstance(arg, ast.Attribute) or (isinstance(arg, ast.Call) and isinstance(arg.func, ast.Name) and arg.func.id == 'getattr'):
+                rep.fail(Finding('R11.4.imm', fn.name, call,
+                                 'the value held in a register field is re-wrapped as Arithmetic({}): after resolve_register_aliases the field may be an int '
+                                 '(Arithmetic.eval calls str methods on it) and a register-name spelling that lookup_register accepts is evaluated in an '
+                                 'environment without the register table: a constant used as a shift amount breaks under -c'.format(unparse(arg)),
+                                 line=call.lineno), instance=inst)
+            else:
+                und.append('representation of {} is not understood'.format(inst))
+    rep.analysed['register fields re-wrapped as expressions'] = n
 
 
 def check_modifiers(rep, facts, und):
     """R11.5: a constant inside %hi / %lo / %position reaches the same Arithmetic.eval."""
-    try:
-        arms, els = chain_outcomes(facts, 'parse_immediate', 'imm')
-    except AnalysisError as e:
-        und.append(str(e))
-        arms, els = None, None
-    if arms is not None:
-        ok_base = any(o.kind == 'return' and o.cls == 'Arithmetic' for o in els)
-        fn = facts.funcs['parse_immediate']
-        rep.check(ok_base, 'R11.5.modifiers', 'a plain immediate becomes Arithmetic(text)',
-                  lambda: Finding('R11.5.modifiers', 'parse_immediate', fn, 'plain immediates are not parsed into Arithmetic', line=fn.lineno))
-        for key, test, outs in arms:
-            if key[0] != 'head':
-                continue
-            for o in outs:
-                if o.kind != 'return':
-                    continue
-                if key[1] in ('%hi', '%lo'):
-                    ok = len(o.args) == 1 and o.args[0][0] == 'imm'
-                elif key[1] == '%position':
-                    ok = len(o.args) == 2 and o.args[1][0] == 'call' and o.args[1][1] == 'Arithmetic'
-                else:
-                    continue
-                rep.check(ok, 'R11.5.modifiers', '{}: inner expression parsed recursively / as Arithmetic'.format(key[1]),
-                          lambda o=o, key=key: Finding('R11.5.modifiers', 'parse_immediate', o.node, 'the expression inside {} is not evaluated like any other expression'.format(key[1]), line=o.node.lineno),
-                          nontrivial=False)
+    fn = facts.funcs.get('parse_immediate')
+    if fn is None:
+        raise AnalysisError('anchor vanished: parse_immediate')
+    w = XWalker(facts)
+    st = PathState()
+    for a in fn.args.args + fn.args.kwonlyargs:
+        st.env[a.arg] = ('name', a.arg)
+    seen = set()
+
+    def is_expression(v):
+        """an expression object built like any other: a recursive parse or Arithmetic(text)"""
+        return (v[0] == 'call' and v[1] == 'parse_immediate') or (v[0] == 'new' and v[1] == 'Arithmetic' and len(v[2]) == 1)
+    for p in w.run(fn.body, st):
+        if p.end != 'return':
+            continue
+        ret = [e for e in p.events if e[0] == 'return'][-1]
+        v, node = ret[1], ret[2]
+        if v[0] == 'call' and v[1] == 'parse_immediate':
+            continue
+        if v[0] != 'new' or not facts.is_subclass(v[1], 'Expr'):
+            und.append('parse_immediate returns something that is not an expression object: {}'.format(show(v)[:60]))
+            continue
+        cls = v[1]
+        seen.add(cls)
+        if cls == 'Arithmetic':
+            rep.ok('R11.5.modifiers', 'a plain immediate becomes Arithmetic(text)')
+            continue
+        fields = stored_fields(facts, cls)
+        inner = [v[2][i] for attr, i in fields.items() if i < len(v[2]) and facts.classes[cls].methods.get('eval') is not None
+                 and any(isinstance(n, ast.Attribute) and n.attr == attr and isinstance(getattr(n, '_parent', None), ast.Attribute) and n._parent.attr == 'eval'
+                         for n in ast.walk(facts.classes[cls].methods['eval']))]
+        # `inner`: constructor arguments stored in a field on which the class's eval() calls .eval(...) again (nested expressions)
+        for x in inner:
+            rep.check(is_expression(x), 'R11.5.modifiers', '{}: inner expression parsed recursively / as Arithmetic'.format(cls),
+                      lambda node=node, cls=cls: Finding('R11.5.modifiers', 'parse_immediate', node, 'the expression inside {} is not evaluated like any other expression'.format(cls), line=node.lineno),
+                      nontrivial=False)
+    missing = {'Arithmetic', 'Hi', 'Lo', 'Position'} - seen
+    if missing:
+        und.append('parse_immediate: no return path builds {}'.format(sorted(missing)))
+    rep.analysed['expression classes built by parse_immediate'] = len(seen)
     for cls in ('Hi', 'Lo', 'Position'):
         if cls not in facts.classes:
             raise AnalysisError('anchor vanished: class {}'.format(cls))
@@ -510,7 +611,7 @@ def run(repo, tier):
                  'rebuild under the rebuild invariant; a register field moved into an immediate on the -c path keeps representation and '
                  'environment; constants inside %hi/%lo/%position reach the same evaluator.  Pass order and table positions come from an '
                  'abstract evaluation of assemble (passorder), helper methods / functions are inlined on the analysed paths.')
-    rep.trusted_base = ['CPython ast', 'Python eval() arithmetic on int literals and operators', 'bbverif.pathwalk / bitdom / comprel / passorder']
+    rep.trusted_base = ['CPython ast', 'Python eval() arithmetic on int literals and operators', 'bbverif.pathwalk / wiring / passorder']
     rep.not_decided = ['the arithmetic itself (precedence, //, %, ~, shifts): delegated to Python eval, trusted',
                        'the effect of the tokenizer on expression text: splitting on whitespace/commas and paren padding is transparent for numbers and operators but not for '
                        'character literals (\',\' evaluates to 32; \'#\', \'(\', \')\' are refused): value semantics of regex/string processing on particular inputs']
@@ -525,8 +626,10 @@ def run(repo, tier):
     guarded(check_integer_results, rep, facts, und)
     guarded(check_constants_pass, rep, facts, pipe, und)
     guarded(check_envs, rep, facts, pipe, und)
-    guarded(check_aliases, rep, facts, pipe, und)
-    guarded(lambda: check_representation(rep, facts, CompRel(facts), 'R11.4'))
+    regs = []
+    guarded(lambda: regs.append(check_aliases(rep, facts, pipe, und)))
+    if regs and regs[0]:
+        guarded(check_register_text, rep, facts, regs[0], und)
     guarded(check_modifiers, rep, facts, und)
     if und and not rep.findings:
         raise AnalysisError(und[0] + (' (+{} more)'.format(len(set(und)) - 1) if len(set(und)) > 1 else ''))
@@ -535,5 +638,5 @@ def run(repo, tier):
     rep.floor('constant definition paths', 1)
     rep.floor('passes that receive the constants table', 3)
     rep.floor('passes with a label environment', 2)
-    rep.floor('constructor arguments classified', 40)
+    rep.floor('register fields re-wrapped as expressions', 1)
     return rep
